@@ -23,7 +23,7 @@ class Unsupported(Exception):
     pass
 
 
-VEC_TAGS = {"vsym", "vzero", "vadd", "vscale", "cross", "vfun", "dvfun", "ddvfun", "vfun2", "dvfun2"}
+VEC_TAGS = {"vsym", "vzero", "vadd", "vscale", "cross", "vfun", "dvfun", "ddvfun", "vfun2", "dvfun2", "dnvfun"}
 
 
 def is_vec(r) -> bool:
@@ -48,6 +48,8 @@ def coq_of_recipe(r) -> str:
         return f"df{r[1]}"
     if t == "ddvfun":
         return f"ddf{r[1]}"
+    if t == "dnvfun":
+        return f"f{r[1]}_d{r[2]}"
     if t == "vfun2":
         return f"g{r[1]}"
     if t == "dvfun2":
@@ -99,6 +101,8 @@ def show_recipe(r) -> str:
         return f"F{r[1]}'(t)"
     if t == "ddvfun":
         return f"F{r[1]}''(t)"
+    if t == "dnvfun":
+        return f"F{r[1]}^({r[2]})(t)"
     if t == "vfun2":
         return f"G{r[1]}(t, u)"
     if t == "dvfun2":
@@ -153,7 +157,7 @@ def recipe_atoms(r, acc=None):
     t = r[0]
     if t == "vsym":
         acc["v"].add(r[1])
-    elif t in ("vfun", "dvfun", "ddvfun"):
+    elif t in ("vfun", "dvfun", "ddvfun", "dnvfun"):
         acc["f"].add(r[1])
     elif t == "ssym":
         acc["s"].add(r[1])
@@ -274,6 +278,8 @@ def eval_recipe(r, env: Env):
         return env.dfuns[r[1]]
     if t == "ddvfun":
         return env.ddfuns[r[1]]
+    if t == "dnvfun":
+        return env.g[f"f{r[1]}_d{r[2]}"]
     if t == "vfun2":
         return env.g[str(r[1])]
     if t == "dvfun2":
@@ -524,6 +530,10 @@ def _pow_text(base: str, n: int) -> str:
     return "(" + " * ".join(parts) + ")"
 
 
+PARTIAL_KEYS = ("t", "u", "tt", "tu", "uu", "ttt", "ttu", "tuu", "uuu")
+HIGH_ORDERS = (3, 4, 5)
+
+
 def partial_tag(e, c: OutCtx):
     """VectorDerivative(G_i(t, u[, s]), ...) -> (i, "t" | "u" | "tu"); None if not of that form"""
     if e.args[0] not in c.fun2_name:
@@ -535,7 +545,7 @@ def partial_tag(e, c: OutCtx):
             return None
         counts[name] = counts.get(name, 0) + int(n)
     key = "".join(k * counts[k] for k in sorted(counts))
-    if key not in ("t", "u", "tu"):
+    if key not in PARTIAL_KEYS:
         return None
     return c.fun2_name[e.args[0]], key
 
@@ -561,6 +571,8 @@ def coq_of_sympy(e, c: OutCtx, want: str) -> str:
             i, key = partial_tag(e, c)
             return f"g{i}_{key}"
         if isinstance(e, V.VectorDerivative):
+            if len(e.args) == 2 and e.args[0] in c.fun_name and e.args[1][0] == c_par(c) and int(e.args[1][1]) in HIGH_ORDERS:
+                return f"f{c.fun_name[e.args[0]]}_d{int(e.args[1][1])}"
             if len(e.args) == 2 and e.args[0] in c.fun_name and tuple(e.args[1]) in ((c_par(c), 1), (c_par(c), 2)):
                 return ("df" if e.args[1][1] == 1 else "ddf") + str(c.fun_name[e.args[0]])
             raise Unsupported(f"derivative form {e}")
@@ -654,6 +666,8 @@ def eval_sympy(e, c: OutCtx, env: Env, want: str):
         if isinstance(e, V.AppliedVectorFunction):
             return env.funs[c.fun_name[e]]
         if isinstance(e, V.VectorDerivative):
+            if len(e.args) == 2 and e.args[0] in c.fun_name and int(e.args[1][1]) in HIGH_ORDERS:
+                return env.g[f"f{c.fun_name[e.args[0]]}_d{int(e.args[1][1])}"]
             if len(e.args) == 2 and e.args[0] in c.fun_name and int(e.args[1][1]) in (1, 2):
                 return (env.dfuns if int(e.args[1][1]) == 1 else env.ddfuns)[c.fun_name[e.args[0]]]
             raise Unsupported(f"derivative form {e}")
@@ -730,10 +744,14 @@ def diff_recipe(r, wrt="t"):
         return ("dvfun", r[1])
     if t == "dvfun":
         return ("ddvfun", r[1])
+    if t == "ddvfun":
+        return ("dnvfun", r[1], 3)
+    if t == "dnvfun" and r[2] + 1 in HIGH_ORDERS:
+        return ("dnvfun", r[1], r[2] + 1)
     if t == "vfun2":
         return ("dvfun2", r[1], "t")
-    if t == "dvfun2" and r[2] == "u":
-        return ("dvfun2", r[1], "tu")
+    if t == "dvfun2" and "".join(sorted(r[2] + "t")) in PARTIAL_KEYS:
+        return ("dvfun2", r[1], "".join(sorted(r[2] + "t")))
     if t == "par2":
         return ("int", 0)
     if t == "vadd":
@@ -764,12 +782,12 @@ def diff_recipe(r, wrt="t"):
 def _diff_u(r):
     t = r[0]
     D = _diff_u
-    if t in ("vsym", "vzero", "vfun", "dvfun", "ddvfun"):
+    if t in ("vsym", "vzero", "vfun", "dvfun", "ddvfun", "dnvfun"):
         return ("vzero",)
     if t == "vfun2":
         return ("dvfun2", r[1], "u")
-    if t == "dvfun2" and r[2] == "t":
-        return ("dvfun2", r[1], "tu")
+    if t == "dvfun2" and "".join(sorted(r[2] + "u")) in PARTIAL_KEYS:
+        return ("dvfun2", r[1], "".join(sorted(r[2] + "u")))
     if t == "vadd":
         return ("vadd", D(r[1]), D(r[2]))
     if t == "vscale":
@@ -947,11 +965,13 @@ def binder(atoms, with_funs=True) -> str:
     vs = [f"v{i}" for i in sorted(atoms["v"])]
     if with_funs:
         vs += [f"f{i}" for i in sorted(atoms["f"])] + [f"df{i}" for i in sorted(atoms["f"])] + [f"ddf{i}" for i in sorted(atoms["f"])]
+        if atoms.get("high"):
+            vs += [f"f{i}_d{n}" for i in sorted(atoms["f"]) for n in HIGH_ORDERS]
     if vs:
         parts.append("(" + " ".join(vs) + " : V3)")
     if with_funs:
         for i in sorted(atoms.get("g", ())):
-            vs += [f"g{i}", f"g{i}_t", f"g{i}_u", f"g{i}_tu"]
+            vs += [f"g{i}"] + [f"g{i}_{k}" for k in (PARTIAL_KEYS if atoms.get("high") else ("t", "u", "tu"))]
         if atoms.get("g") and parts:
             parts[0] = "(" + " ".join(vs) + " : V3)"
         elif atoms.get("g"):
